@@ -760,6 +760,7 @@ func constWithin(info *types.Info, e ast.Expr, minus int64, limit constant.Value
 	c2 := constant.BinaryOp(c, token.SUB, constant.MakeInt64(minus))
 	return c.ExactString(), constant.Compare(c2, token.LEQ, limit)
 }
+
 // sliceBoundWithin: e is X[:K] with byte-indexed X and K <= limit (or min(len(X), K)).
 func sliceBoundWithin(info *types.Info, e ast.Expr, limit constant.Value) (bool, string) {
 	se, ok := ast.Unparen(e).(*ast.SliceExpr)
